@@ -125,6 +125,18 @@ Theorem C03_perm_datasets_value : forall (erfR : R -> R) (opa ns : R)
 Proof. exact multi_value_perm. Qed.
 Print Assumptions C03_perm_datasets_value.
 
+(* rows of a_jk with their data (N_j, n_selected_j, pair table_j); the ratios of a
+   dataset are the stacked ratios of its own row *)
+Theorem C03_perm_datasets_rows : forall (erfR : R -> R) (opa ns : R)
+    (rd rd' : list (list R * (R * nat * list (nat * nat * R)))),
+  Permutation rd rd' ->
+  let data := fun x : list R * (R * nat * list (nat * nat * R)) =>
+    (fst (fst (snd x)), sw_ratio (RNum erfR) (fst x) (snd (fst (snd x))) (snd (snd x))) in
+  multi_value (RNum erfR) opa ns (f_j (RNum erfR) (map fst rd)) (map data rd)
+  = multi_value (RNum erfR) opa ns (f_j (RNum erfR) (map fst rd')) (map data rd').
+Proof. exact multi_value_perm_rows. Qed.
+Print Assumptions C03_perm_datasets_rows.
+
 Theorem C03_perm_sources_fj : forall (erfR : R -> R) (a a' : list (list R)),
   Forall2 (fun r r' => Permutation r r') a a' -> f_j (RNum erfR) a = f_j (RNum erfR) a'.
 Proof. exact f_j_perm_sources. Qed.
